@@ -89,6 +89,22 @@ MpCases == <<
 MpCase(j) == [id |-> Len(AllSeq) + Len(SmugCases) + j, script |-> MpCases[j].script, wire |-> Encode(MpCases[j].script),
               offs |-> Offsets(MpCases[j].script), progs |-> <<MpCases[j].prog, P(<<4096>>, TRUE)>>]
 
+\* a read time-out inside the body of the second request (the first request makes the server set read deadlines), the
+\* rest of the body arrives afterwards: chunked (every read happens in the handler) and a Content-Length body longer
+\* than the 8 KiB the server reads ahead
+TmoUp(fr, n, cs) == Req("PUT", "/slow", fr, n, cs, << >>, FALSE)
+TmoScripts == << <<Probe, TmoUp("chunked", 26, <<10, 11, 5>>), Probe>>,
+                 <<Probe, TmoUp("cl", 20000, << >>), ProbeChunked>>,
+                 <<ProbeChunked, TmoUp("chunked", 12000, <<6000, 6000>>), Probe>> >>
+TmoAt(j, d) == Offsets(TmoScripts[j])[2].headEnd + d
+TmoPlan == << <<1, 7>>, <<1, 20>>, <<2, 9000>>, <<2, 15000>>, <<3, 100>>, <<3, 7000>> >>
+TmoProgs == << P(<<4096>>, TRUE), P(<<3>>, FALSE), P(<<4096, 4096, 4096>>, FALSE) >>
+TmoCase(j) == LET pl == TmoPlan[((j - 1) % Len(TmoPlan)) + 1] pr == TmoProgs[((j - 1) \div Len(TmoPlan)) + 1] IN
+              [id |-> Len(AllSeq) + Len(SmugCases) + Len(MpCases) + j, script |-> TmoScripts[pl[1]], wire |-> Encode(TmoScripts[pl[1]]),
+               offs |-> Offsets(TmoScripts[pl[1]]), progs |-> <<P(<<4096>>, TRUE), pr, P(<<4096>>, TRUE)>>,
+               fault |-> [truncate |-> 0, wfail |-> 0, maxBody |-> 0, stall |-> FALSE, tmo |-> TmoAt(pl[1], pl[2])]]
+NTmo == Len(TmoPlan) * Len(TmoProgs)
+
 SmugCase(j) == [id |-> Len(AllSeq) + j, script |-> SmugCases[j].script, wire |-> Encode(SmugCases[j].script),
                 offs |-> Offsets(SmugCases[j].script), progs |-> <<SmugCases[j].prog, P(<<4096>>, TRUE)>>]
 
@@ -99,7 +115,7 @@ ASSUME \A k \in 1 .. Len(AllSeq) : \A j \in 1 .. 2 : WellFormedReq(Script(k)[j])
 ASSUME \A j \in 1 .. Len(SmugCases) : WellFormedReq(SmugCases[j].script[1])
 ASSUME \A j \in 1 .. Len(MpCases) : WellFormedReq(MpCases[j].script[1])
 ASSUME ndJsonSerialize(IOEnv.VERIF_OUT, [k \in 1 .. Len(AllSeq) |-> Case(k)] \o [j \in 1 .. Len(SmugCases) |-> SmugCase(j)]
-                                        \o [j \in 1 .. Len(MpCases) |-> MpCase(j)])
+                                        \o [j \in 1 .. Len(MpCases) |-> MpCase(j)] \o [j \in 1 .. NTmo |-> TmoCase(j)])
 
 VARIABLE g
 GenInit == g = 0
